@@ -10,8 +10,8 @@ package main
 // reading of the documented --whitelist-domain rules. Login start: Location == configured authorization endpoint.
 // Fidelity: safe same-site path+query comes back byte for byte after login.
 //
-// Structure: the bulk (exhaustive enumeration on sign_out under each of 7 whitelist configurations, then the carried-over
-// strings through the 16 other channels) is single-request string work and runs in 14 child processes (7 configurations x 2
+// Structure: the bulk (exhaustive enumeration on sign_out under each of 8 whitelist configurations, then the carried-over
+// strings through the 26 other channels) is single-request string work and runs in 16 child processes (8 configurations x 2
 // shards) from the NON-race build of the same harness ($VERIF_BIN_NORACE, TestVerif_C06Bulk) — processes, because the proxy
 // serialises requests on a process-wide lock; the race build runs the self-tests, the fidelity clause, a smaller pass over
 // all channels and the wire comparison, and merges the children's evidence and violations.
@@ -345,11 +345,11 @@ func c06RunBulk(run *vfRun) *c06BulkResult {
 func TestVerif_C06(t *testing.T) {
 	run := vfNewRun(t, "C06", "exploration")
 	run.SetRule("phase 1 (sign_out?rd=): every string of <=3 (quick) / <=4 (thorough) tokens over a 40-token adversarial alphabet, the same (one token shorter) behind 10 URL prefixes, the slash-filler-slash family (<=3/<=4 fillers), " +
-		"and the repository's own open-redirect list, each under all 7 whitelist configurations (none, exact, .dot, *.star, host:port, host:*, IPv6/IPv4 literal); 50k/1M seeded random strings of 5-12 tokens under 2/3 of the 7; " +
+		"and the repository's own open-redirect list, each under all 8 whitelist configurations (none, exact, .dot, *.star, host:port, host:*, IPv6/IPv4 literal, entries with an empty host part); 50k/1M seeded random strings of 5-12 tokens under 2/3 of the 8; " +
 		"phase 2: every short string (<=2/<=3 tokens), the list, and every string phase 1 saw kept or that a browser would resolve off-origin if echoed (big thorough sub-spaces carried at 1/64) " +
-		"through 16 more channels (X-Auth-Request-Redirect on sign_out/start, rd on start->IdP->callback with plain and base64 state, state edited at the callback, X-Forwarded-Proto/Host/Uri in reverse-proxy mode, htpasswd form login, " +
-		"sign-in / error / 403 pages parsed with x/net/html, protected URL and sign_in with skip-provider-button); short strings under all configurations, carried ones under 2/3 chosen by hash; login channels on a sample; " +
-		"plus a pass of all channels in the race build, the same requests over a real connection (Location as transmitted), and the fidelity clause on 300/4000 safe URIs x 6 routes. " +
+		"through 26 more channels (X-Auth-Request-Redirect on sign_out/start, rd on start->IdP->callback with plain and base64 state, state edited at the callback, X-Forwarded-Proto/Host/Uri in reverse-proxy mode, htpasswd form login, " +
+		"sign-in / error / 403 pages parsed with x/net/html, protected URL and sign_in with skip-provider-button, failed callbacks carrying a forged state in 5 failure modes x plain/base64); short strings under all configurations, carried ones under 2/3 chosen by hash; login channels on a sample; " +
+		"plus a pass of all channels in the race build, the same requests over a real connection (Location as transmitted), and the fidelity clause on 200/3000 safe URIs plus paths sharing the proxy prefix as a string, x 7 routes x proxy prefixes /oauth2, /auth, /a. " +
 		"cell = (channel, whitelist kind, leading class x backslash x whitespace/control x userinfo x port x non-ASCII x escape); non-trivial = the proxy kept the string or a browser would leave the origin if it were echoed verbatim")
 	run.Assume("browsers follow the WHATWG URL Standard (BrowserURL is self-tested against the standard's examples at the start of the run)",
 		"golang.org/x/net/idna implements UTS #46 as browsers do", "whitelist semantics as documented in docs/docs/configuration/overview.md (bare domain of a .x/*.x entry accepted)",
